@@ -341,7 +341,7 @@ func (p *Parser) ParseArgs(args []string) ([]string, error) {
 	if reterr != nil {
 		var retargs []string
 
-		if ourErr, ok := reterr.(*Error); !ok || ourErr.Type != ErrHelp {
+		if ourErr, ok := reterr.(*Error); !ok || ourErr == nil || ourErr.Type != ErrHelp {
 			retargs = append([]string{s.arg}, s.args...)
 		} else {
 			retargs = s.args
@@ -707,7 +707,7 @@ func (p *Parser) printError(err error) error {
 	if err != nil && (p.Options&PrintErrors) != None {
 		flagsErr, ok := err.(*Error)
 
-		if ok && flagsErr.Type == ErrHelp {
+		if ok && flagsErr != nil && flagsErr.Type == ErrHelp {
 			fmt.Fprintln(os.Stdout, err)
 		} else {
 			fmt.Fprintln(os.Stderr, err)
